@@ -262,7 +262,48 @@ def dispatch_rule(repo: Repo, rep: Report, rid: str) -> None:
     rep.floor(rid, "supported families", n, 12)
 
 
+def positioning_rule(repo: Repo, rep: Report, rid: str) -> None:
+    rep.rule(rid, "every emission path of the source generator positions the stream by the field's recorded offset, as the interpreter does for "
+                  "every field: each arm of the per-field dispatch calls align_to_field(field) or compares field.offset with the tracked offset "
+                  "before it emits / opens a block")
+    gf = repo.func("compiler.py", "_ReadSourceGenerator._generate_fields")
+    loops = [l for l in walk_body(gf.node.body) if isinstance(l, ast.For) and norm(l.iter) == "self.fields"]
+    if len(loops) != 1:
+        raise AnalysisError("_generate_fields: field loop not found")
+    # the dispatch chain: the if/elif/else whose first test is an issubclass(field_type, ...) and whose arms emit or collect
+    chain_head = None
+    for st in loops[0].body:
+        if isinstance(st, ast.If) and "issubclass(field_type" in norm(st.test) and any(isinstance(y, (ast.YieldFrom, ast.Yield)) for s2 in st.body for y in ast.walk(s2)):
+            chain_head = st
+    if chain_head is None:
+        raise AnalysisError("_generate_fields: per-field dispatch chain not found")
+    arms = []
+    cur = chain_head
+    while isinstance(cur, ast.If):
+        arms.append((short(cur.test, 50), cur.body))
+        if len(cur.orelse) == 1 and isinstance(cur.orelse[0], ast.If):
+            cur = cur.orelse[0]
+        else:
+            if cur.orelse:
+                arms.append(("else", cur.orelse))
+            cur = None
+    for label, body in arms:
+        txt = [x for s2 in body for x in ast.walk(s2)]
+        positions = any(isinstance(x, ast.Call) and call_name(x) == "align_to_field" for x in txt) or \
+            any(isinstance(x, ast.Compare) and "field.offset" in norm(x) and "current_offset" in norm(x) for x in txt)
+        rep.check(positions, rid, f"{gf.key}:arm {label}", "positions the stream by the recorded field offset",
+                  f"arm '{label}' of the generator never looks at field.offset: when the field starts behind a gap (alignment padding after a nested "
+                  f"structure, a bit-field unit or an explicit offset) the compiled reader reads it from the wrong position while the interpreted "
+                  f"reader seeks to struct_start + field.offset", gf.loc(body[0]))
+    rep.floor(rid, "dispatch arms of the generator", len(arms), 4)
+    rd = repo.func("types/structure.py", "StructureMetaType._read")
+    rep.check(any(isinstance(x, ast.Compare) and "field.offset" in norm(x) and "struct_start" in norm(x) for x in walk_body(rd.node.body)), rid,
+              f"{rd.key}:positions", "interpreter seeks every field to struct_start + field.offset when it is not already there",
+              "the interpreter no longer positions fields by their recorded offset", rd.loc())
+
+
 def run(repo: Repo, rep: Report, tier: str) -> None:
+    positioning_rule(repo, rep, "C03.R8")
     fallback_rule(repo, rep, "C03.R1")
     neutral_rule(repo, rep, "C03.R2")
     bookkeeping_rule(repo, rep, "C03.R3")
